@@ -5,6 +5,7 @@ import (
 	"os"
 
 	"verif/driver"
+	"verif/scen/bindhist"
 	"verif/scen/fscrash"
 	"verif/scen/immut"
 	"verif/scen/kvstore"
@@ -18,7 +19,11 @@ func main() {
 	if len(os.Args) > 1 && os.Args[1] == "--c20child" {
 		os.Exit(shared.ChildMain(os.Args[2:]))
 	}
+	if len(os.Args) > 1 && os.Args[1] == "--c19child" {
+		os.Exit(bindhist.ChildMain(os.Args[2:]))
+	}
 	driver.Register(shared.S{})
+	driver.Register(bindhist.S{})
 	driver.Register(fscrash.S{})
 	driver.Register(immut.S{})
 	driver.Register(kvstore.S{})
